@@ -98,7 +98,7 @@ class Forms(HypPart):
     rule = ('texts from pools G0-G4 with \\n as the only line terminator x renderer; str, str +/- final newline, list/tuple/iterator of '
             'lines with and without terminators, StringIO, real file object and in-process CLI must give byte-identical output; '
             'non-trivial = (>= 2 blocks and a non-ASCII character) or no final newline; distinct = distinct (text, renderer)')
-    required_labels = {'no-final-newline': 0.05, 'non-ascii': 0.03, 'option-matters': 0.002, 'longer-than-8KB': 0.003}
+    required_labels = {'no-final-newline': 0.05, 'non-ascii': 0.03, 'option-matters': 0.002, 'longer-than-8KB': 0.002}
 
     def strategy(self, tier):
         return tapes(60, 600)
@@ -107,7 +107,7 @@ class Forms(HypPart):
         t = Tape(drawn)
         while not t.exhausted():
             pool, text = pools.any_text(t, 300)
-            if text.strip() and t.chance(3):
+            if text.strip() and t.chance(2):
                 # a long document: file layers read in chunks (8 KB text buffers, 64 KB pipes), strings and lists do not
                 target = t.choice([8200, 8700, 8700, 17000, 17000, 66000])
                 unit = text if text.endswith('\n') else text + '\n'
